@@ -210,7 +210,9 @@ impl Default for CommandBuffer {
     fn default() -> Self {
         Self {
             cmds: Vec::new(),
-            storage: NonNull::dangling(),
+            // Dangling, but aligned to `layout` so that zero-sized components stored before the
+            // first allocation are well-aligned
+            storage: NonNull::new(8 as *mut u8).unwrap(),
             layout: Layout::from_size_align(0, 8).unwrap(),
             cursor: 0,
             components: Vec::new(),
